@@ -196,6 +196,9 @@ def job_bounded_ptrace(tier, rng, count):
         try:
             got = ut.partial_trace(rho, tuple(dims), set(keep))
             ok = np.abs(got - SS.ptrace(rho, dims, keep)).max() < 1e-9
+            if len(keep) == 1:        # documented: keep_index may be a single int
+                ok = ok and np.abs(ut.partial_trace(rho, tuple(dims), int(keep[0])) - got).max() < 1e-12
+            ok = ok and np.abs(ut.partial_trace(rho, list(dims), list(keep)) - got).max() < 1e-12 and np.abs(ut.partial_trace(rho, np.array(dims), tuple(keep)) - got).max() < 1e-12
         except Exception as ex:
             if not from_repo(ex):
                 raise
